@@ -534,6 +534,7 @@ func props() []rp.Prop {
 			return nil
 		}},
 		cold.Prop{Name: "cold", Scenario: "messages", N: ev.Pick(24, 480) / ev.Shards()},
+		collideProps()[0],
 	}
 }
 
